@@ -1,0 +1,26 @@
+//go:build verif
+
+package pipservices
+
+// Machine-checked contracts for /verif (gowp). Comment-only file: it adds no code.
+// Interface contracts (frames) of the pipeline service interfaces: read-only accessors do not
+// write the heap visible to their callers. The implementations in package tasks are plain
+// field reads (see tasks/task.go).
+
+//@ iface github.com/goatcms/goatcore/app/modules/pipelinem/pipservices.Task.WaitList(self) (list)
+//@   modifies $none
+//@ iface github.com/goatcms/goatcore/app/modules/pipelinem/pipservices.Task.LockMap(self) (m)
+//@   modifies $none
+//@ iface github.com/goatcms/goatcore/app/modules/pipelinem/pipservices.Task.Name(self) (s)
+//@   modifies $none
+//@ iface github.com/goatcms/goatcore/app/modules/pipelinem/pipservices.Task.Errors(self) (errs)
+//@   modifies $none
+//@ iface github.com/goatcms/goatcore/app/modules/pipelinem/pipservices.Task.Wait(self) (err)
+//@   modifies $none
+//@ iface github.com/goatcms/goatcore/app/modules/pipelinem/pipservices.Task.IOContext(self) (ctx)
+//@   modifies $none
+//@ iface github.com/goatcms/goatcore/app/modules/pipelinem/pipservices.TaskWriter.SetStatus(self, status)
+//@   modifies $none
+//@ iface github.com/goatcms/goatcore/app/modules/pipelinem/pipservices.TasksManager.Get(self, name) (task, ok)
+//@   modifies $none
+//@   ensures ok ==> task != nil
